@@ -183,10 +183,12 @@ class rectify_templated_slices:
                         _iter[_i].source_slice.start + carried_delta)
                 and L_const(length_deltas, (0 if _i == 0 else _iter[_i - 1].source_slice.stop + carried_delta),
                             _iter[_i].source_slice.stop + carried_delta)
-                and L_next_tag(length_deltas, _iter, _i, carried_delta,
-                               (0 if _i == 0 else _iter[_i - 1].source_slice.stop + carried_delta), delta_stack[0][0])
-                and L_after_tag(length_deltas, delta_stack[0][0],
-                                _iter[_i].source_slice.stop + carried_delta - delta_stack[0][1]))
+                and implies(len(delta_stack) > 0,
+                            L_next_tag(length_deltas, _iter, _i, carried_delta,
+                                       (0 if _i == 0 else _iter[_i - 1].source_slice.stop + carried_delta), delta_stack[0][0]))
+                and implies(len(delta_stack) > 0,
+                            L_after_tag(length_deltas, delta_stack[0][0],
+                                        _iter[_i].source_slice.stop + carried_delta - delta_stack[0][1])))
 
 
 # ===================================================================================================== BOUNDED (labelled; not proofs)
